@@ -30,6 +30,7 @@ type Program struct {
 	Used map[string]int // construct family → occurrences
 	// Faulty: a deliberate panic/fault was placed.
 	Faulty bool
+	Parts  Parts
 }
 
 // Var is a variable in scope.
@@ -81,6 +82,7 @@ type Gen struct {
 	depthVar  string
 	inClosure int
 	globals   []*Var
+	mainStmts []string
 	needIdx   bool
 	needIdent bool
 	needSort  bool
